@@ -22,7 +22,8 @@ const RULE: &str = "a case = a label filter (include-all / allow-list over a sub
 
 static META: Metadata<'static> = Metadata::new("c17", Level::INFO, None);
 
-const FIELDS: [&str; 6] = ["a", "b", "c", "d", "e", "f"];
+// (the last field name is not ASCII: one character, two bytes)
+const FIELDS: [&str; 6] = ["a", "b", "c", "d", "e", "é"];
 
 #[derive(Debug, Clone, PartialEq)]
 enum Val {
@@ -121,7 +122,7 @@ fn dec_ops(src: &mut Source) -> Vec<Op2> {
                 }
             }
             _ => {
-                let labels = src.vec(3, |s| (s.pick(&["a", "b", "f", "x", "y"]).to_string(), s.pick(&["m1", "m2", ""]).to_string()));
+                let labels = src.vec(3, |s| (s.pick(&["a", "b", "é", "x", "y"]).to_string(), s.pick(&["m1", "m2", ""]).to_string()));
                 let mut seen = std::collections::HashSet::new();
                 let labels: Vec<(String, String)> = labels.into_iter().filter(|(k, _)| seen.insert(k.clone())).collect();
                 Op2::Emit { kind: *src.pick(&['c', 'g', 'h']), name: src.pick(&["metric", "other.name"]).to_string(), labels }
@@ -173,9 +174,9 @@ fn open_span(fields: &[Option<Val>; 6], empty_site: bool, parent: Option<Option<
     let e = fields[4].as_ref().map(|v| if let Val::F64(x) = v { *x } else { 0.0 });
     let f = fields[5].as_ref().map(|v| if let Val::Disp(s) = v { tracing::field::display(s.clone()) } else { tracing::field::display(String::new()) });
     match parent {
-        None => tracing::span!(tracing::Level::INFO, "six_fields", a = a, b = b, c = c, d = d, e = e, f = f),
-        Some(None) => tracing::span!(parent: None, tracing::Level::INFO, "six_fields", a = a, b = b, c = c, d = d, e = e, f = f),
-        Some(Some(p)) => tracing::span!(parent: p, tracing::Level::INFO, "six_fields", a = a, b = b, c = c, d = d, e = e, f = f),
+        None => tracing::span!(tracing::Level::INFO, "six_fields", a = a, b = b, c = c, d = d, e = e, é = f),
+        Some(None) => tracing::span!(parent: None, tracing::Level::INFO, "six_fields", a = a, b = b, c = c, d = d, e = e, é = f),
+        Some(Some(p)) => tracing::span!(parent: p, tracing::Level::INFO, "six_fields", a = a, b = b, c = c, d = d, e = e, é = f),
     }
 }
 
@@ -356,8 +357,8 @@ fn run_thread(ops: &[Op2], filter: &Filter, rec: &(dyn Recorder + Sync), log: &c
                     }
                     let before = log.lock().unwrap().iter().filter(|e| e.thread == me).count();
                     let current_before: MapModel = stack.last().map(|s| s.1.clone()).unwrap_or_default();
-                    stack[idx].0.record("f", tracing::field::debug(EmitOnFmt));
-                    set(&mut stack[idx].1, "f", "emit".to_string());
+                    stack[idx].0.record("é", tracing::field::debug(EmitOnFmt));
+                    set(&mut stack[idx].1, "é", "emit".to_string());
                     // what the emission made while the value was being formatted reached the recorder with: the current
                     // span's labels, complete — for the field being recorded either its earlier or its new value
                     let l = log.lock().unwrap();
@@ -367,8 +368,8 @@ fn run_thread(ops: &[Op2], filter: &Filter, rec: &(dyn Recorder + Sync), log: &c
                         let got_map: std::collections::BTreeMap<String, String> = got.iter().cloned().collect();
                         let want_old: std::collections::BTreeMap<String, String> = current_before.iter().filter(|(k, v)| admits(filter, "from_fmt", k, v)).cloned().collect();
                         let mut want_new = want_old.clone();
-                        if idx + 1 == stack.len() && admits(filter, "from_fmt", "f", "emit") {
-                            want_new.insert("f".to_string(), "emit".to_string());
+                        if idx + 1 == stack.len() && admits(filter, "from_fmt", "é", "emit") {
+                            want_new.insert("é".to_string(), "emit".to_string());
                         }
                         ensure!(got_map == want_old || got_map == want_new, "labels-lost-during-record", "a counter emitted while Span::record was formatting its value (span level {} of {}) reached the recorder with {:?}; the current span's labels are {:?} (or {:?} with the new value)", idx, stack.len(), got_map, want_old, want_new);
                         nontrivial = true;
